@@ -547,8 +547,16 @@ class RTCRtpReceiver:
             # Never hand the decoder a frame which is not newer than the last
             # one: packets arriving very late can reset the jitter buffer and
             # make it re-assemble frames which were already decoded.
-            if self.__last_frame_timestamp is not None and not uint32_gt(
-                encoded_frame.timestamp, self.__last_frame_timestamp
+            # A frame which is older by more than 10 seconds is a new timeline
+            # (or follows a bogus timestamp), not a late frame.
+            if (
+                self.__last_frame_timestamp is not None
+                and not uint32_gt(
+                    encoded_frame.timestamp, self.__last_frame_timestamp
+                )
+                and (self.__last_frame_timestamp - encoded_frame.timestamp)
+                % (1 << 32)
+                < 10 * codec.clockRate
             ):
                 return
             self.__last_frame_timestamp = encoded_frame.timestamp
